@@ -79,7 +79,15 @@ pub(crate) fn add_key_output_from_action_to_key_pos(
         }) => {
             add_key_output_from_action_to_key_pos(osc_slot, tap, outputs, overrides);
             add_key_output_from_action_to_key_pos(osc_slot, hold, outputs, overrides);
-            add_key_output_from_action_to_key_pos(osc_slot, timeout_action, outputs, overrides);
+            // A plain tap-hold stores its hold action a second time as the timeout action.
+            // Visiting the same nested tap-hold twice doubles the work at every nesting level.
+            let same_nested_hold_tap = matches!(
+                (hold, timeout_action),
+                (Action::HoldTap(h), Action::HoldTap(t)) if core::ptr::eq(*h, *t)
+            );
+            if !same_nested_hold_tap {
+                add_key_output_from_action_to_key_pos(osc_slot, timeout_action, outputs, overrides);
+            }
         }
         Action::OneShot(OneShot { action: ac, .. }) => {
             add_key_output_from_action_to_key_pos(osc_slot, ac, outputs, overrides);
